@@ -515,13 +515,38 @@ func panicString(r any) string {
 	return "panic (non-string value)"
 }
 
+// spare is the exec of the previous execution, reused when that execution ended without stragglers:
+// allocating (and, in a -race build, shadow-clearing) the ~800 KB structure per execution dominated
+// the cost of short executions. Only the parts an execution reads before writing them are reset.
+var spare *exec
+
+//go:norace
+func newExec(prefix []int) *exec {
+	e := spare
+	spare = nil
+	if e == nil {
+		return &exec{prefix: prefix, panicThr: -1}
+	}
+	for i := range e.threads {
+		e.threads[i] = thread{}
+	}
+	for i := range e.timers {
+		e.timers[i] = timer{}
+	}
+	e.nthreads, e.running, e.turn, e.aborting, e.finished, e.live = 0, 0, 0, false, false, 0
+	e.prefix, e.pos, e.npoints, e.steps = prefix, 0, 0, 0
+	e.deadlock, e.horizon, e.diverged, e.deadInfo, e.now = false, false, false, "", 0
+	e.panicMsg, e.panicThr, e.quiet = "", -1, false
+	return e
+}
+
 // Run executes body as thread 0 under the given choice prefix (choice 0 after
 // the prefix is exhausted) and returns what happened. Executions are strictly
 // sequential within a process; the caller's goroutine is the controller.
 //
 //go:norace
 func Run(prefix []int, body func()) Result {
-	e := &exec{prefix: prefix, panicThr: -1}
+	e := newExec(prefix)
 	e.threads[0] = thread{used: true, kind: KStart}
 	e.nthreads = 1
 	e.live = 1
@@ -549,5 +574,8 @@ func Run(prefix []int, body func()) Result {
 	res := Result{Steps: e.steps, Deadlock: e.deadlock, Horizon: e.horizon, Diverged: e.diverged, DeadInfo: e.deadInfo,
 		Threads: e.nthreads, VirtualNs: e.now, Panic: e.panicMsg, PanicThread: e.panicThr, Stragglers: stragglers}
 	res.Points = append(res.Points, e.points[:e.npoints]...)
+	if stragglers == 0 {
+		spare = e // no goroutine of this execution is left that could still touch it
+	}
 	return res
 }
